@@ -56,6 +56,7 @@ def do_call(cl, objs, by_of, ids, k):
     if op == 'edit':
         vals = [untag(v, ids) for v in cl['vals']]
         if cl['how'] == 'setitem': d[cl['col']] = vals
+        elif cl['how'] == 'update': d.update({cl['col']: vals})
         else: setattr(d, cl['col'], vals)
         return None, []
     if op == 'respec':
